@@ -8,7 +8,7 @@
             the accept test of trial `it` is `tests[it].fz <= tests[it].fq` (values recorded from the real run);
             a trial beyond the recorded list reads NaN (never accepted), so `tried > len(tests)` shows up
     point   {policy, accel}                               -> "x" | "v"   (argument of update in the solver step)
-    run     {Q, b, c, g, gw, x0, L0, policy, accel, steps}  -> [{L, x, res, tried, v, t, margins}] | err
+    run     {Q, b, c, g, gw, x0, L0, policy, accel, steps[, barrier]}  -> [{L, x, res, tried, v, t, margins}] | err
             a whole PGM / AcceleratedPGM trajectory on f(x) = 1/2 x'Qx + b'x + c (real view), g by kind
 -/
 import Scico.Common.Wire
@@ -30,9 +30,15 @@ def proxOf (kind : String) (w : Float) (v : FV) (lam : Float) : FV :=
   | "sql2" => v.map (fun a => a / (1 + 2 * lam * w))
   | _ => v
 
-def quadEnv (Q : Array FV) (b : FV) (c : Float) (g : String) (gw : Float) : Env FV Float where
-  f := fun x => 0.5 * vdot x (matvec Q x) + vdot b x + c
-  grad := fun x => vzip (· + ·) (matvec Q x) b
+/-- the problem: `f(x) = 1/2 x'Qx + b'x + c - w·Σ log xᵢ` (`w = 0`: a quadratic; `w > 0`: a loss defined on `x > 0` only,
+    NaN outside — IEEE `log` of a negative number), `∇f(x) = Qx + b - w/x` -/
+def quadEnv (Q : Array FV) (b : FV) (c : Float) (g : String) (gw : Float) (w : Float := 0.0) : Env FV Float where
+  f := fun x =>
+    let q := 0.5 * vdot x (matvec Q x) + vdot b x + c
+    if w == 0.0 then q else q - w * (x.map Float.log).foldl (· + ·) 0
+  grad := fun x =>
+    let gq := vzip (· + ·) (matvec Q x) b
+    if w == 0.0 then gq else vzip (· - ·) gq (x.map (w / ·))
   prox := proxOf g gw
   add := vzip (· + ·)
   sub := vzip (· - ·)
@@ -115,7 +121,8 @@ def handler : Handler := fun op j =>
     let pol ← policy? (← field? j "policy")
     let accel ← fBool? j "accel"
     let steps ← fNat? j "steps"
-    let env := quadEnv (Q.map List.toArray).toArray b.toArray c g gw
+    let w := (fFloat? j "barrier").getD 0.0
+    let env := quadEnv (Q.map List.toArray).toArray b.toArray c g gw w
     let s0 : PGMState FV Float := PGMState.init x0.toArray L0 (1.0 / 0.0)
     let step := if accel then apgmStep env pol else pgmStep env pol
     let (out, fine) := runTraj step steps s0 []
